@@ -72,4 +72,82 @@ def UpChain : List T → Prop
 a well-formed fraction, so that every age the driver can hand to `ageIter` is well formed) -/
 def ageOf (as : List Frac) (x : T) : Frac := as.getD x.id Frac.zero
 
+
+/-! ### specification vocabulary: depth, bracket matching -/
+
+/-- the nodes at depth `k` below the nodes of `level`, left to right (`genL k [t]` = the k-th generation of `t`) -/
+def genL : Nat → List T → List T
+  | 0, level => level
+  | k + 1, level => genL k (level.flatMap T.cs)
+
+/-- well-bracketed callback sequence, checked with the stack of open nodes: `before i` opens `i`, `after i` must close
+the innermost open node and that node must be `i`, `leaf` is neutral, nothing may stay open (a Dyck word whose
+brackets are labelled with node ids) -/
+def dyck : List Nat → List Ev → Bool
+  | st, [] => st.isEmpty
+  | st, .before i :: r => dyck (i :: st) r
+  | st, .leaf _ :: r => dyck st r
+  | [], .after _ :: _ => false
+  | j :: st, .after i :: r => i == j && dyck st r
+
+/-- the node ids in the order their first callback (`before` or `leaf`) arrives -/
+def opens : List Ev → List Nat
+  | [] => []
+  | .before i :: r => i :: opens r
+  | .leaf i :: r => i :: opens r
+  | .after _ :: r => opens r
+
+/-- the node ids in the order their last callback (`after` or `leaf`) arrives -/
+def closes : List Ev → List Nat
+  | [] => []
+  | .before _ :: r => closes r
+  | .leaf i :: r => i :: closes r
+  | .after i :: r => i :: closes r
+
+/-! ### `Node.apply` over a zipper: the climb through parent pointers made explicit
+
+Every stack entry carries its context: the chain of ancestors up to (and including) the start node, nearest first, each
+with the answer to the test the code makes on the way up — "is the node below you on this chain your LAST child"
+(`node._parent_node._child_nodes[-1] is node`).  The chain ends at the start node (`node is not self` stops there). -/
+
+/-- children pushed with their contexts -/
+def pushZip (i : Nat) (ctx : List (Nat × Bool)) : List T → List (T × List (Nat × Bool))
+  | [] => []
+  | [c] => [(c, (i, true) :: ctx)]
+  | c :: d :: cs => (c, (i, false) :: ctx) :: pushZip i ctx (d :: cs)
+
+/-- the inner loop of `apply`: `while node is not self and parent._child_nodes[-1] is node: node = parent; after_fn(node)` -/
+def climbZip : List (Nat × Bool) → List Ev
+  | [] => []
+  | (p, isLast) :: up => if isLast then .after p :: climbZip up else []
+
+def applyZipRun : Nat → List (T × List (Nat × Bool)) → List Ev
+  | 0, _ => []
+  | _ + 1, [] => []
+  | f + 1, (.node i _ _ _ [], ctx) :: rest => .leaf i :: (climbZip ctx ++ applyZipRun f rest)
+  | f + 1, (.node i _ _ _ (c :: cs), ctx) :: rest => .before i :: applyZipRun f (pushZip i ctx (c :: cs) ++ rest)
+
+def applyZipTrace (t : T) : List Ev := applyZipRun t.size [(t, [])]
+
+/-! ### `ancestor_iter` at pointer level -/
+
+/-- the parent array of a protocol tree, read from the same tokens `parseTree` reads -/
+def parsePar (toks : List String) : Option (Array Int) :=
+  match toks with
+  | [] => none
+  | n :: rest =>
+    match n.toNat? with
+    | none => none
+    | some n => ((rest.take n).mapM String.toInt?).map List.toArray
+
+/-- the loop of `ancestor_iter` as written: `node = node._parent_node` until it is `None` (the seed's -1);
+ids of the proper ancestors of `j`, nearest first -/
+def climbIds (par : Array Int) : Nat → Nat → List Nat
+  | 0, _ => []
+  | f + 1, j => if par[j]! < 0 then [] else (par[j]!).toNat :: climbIds par f (par[j]!).toNat
+
+/-- `ancestor_iter(filter_fn, inclusive)` on node ids and parent pointers -/
+def ancPtrIter (keep : Nat → Bool) (inclusive : Bool) (par : Array Int) (fuel start : Nat) : List Nat :=
+  (if inclusive && keep start then [start] else []) ++ (climbIds par fuel start).filter keep
+
 end DendroModel.C15
